@@ -204,6 +204,14 @@ def _interpreted(tier):
         c2.comp(0).stimulate(jnp.ones(4) * 0.1, verbose=False)
         c2.comp(1).clamp("HH_m", jnp.ones(4) * 0.3, verbose=False)
         models.append(("two compartments, Leak + partial HH, records v / i_HH / i_Leak, stimulus and a clamped gate", c2, 1))
+        c3 = jx.Cell([jx.Branch(comp, ncomp=2)], parents=[-1])
+        c3.insert(Leak())
+        c3.comp(0).record("v", verbose=False)
+        c3.comp(1).record("v", verbose=False)
+        c3.comp(1).record("i_Leak", verbose=False)
+        c3.comp(1).clamp("v", jnp.ones(4) * -55.0, verbose=False)
+        c3.comp(0).stimulate(jnp.ones(4) * 0.05, verbose=False)
+        models.append(("two compartments, Leak, voltage clamp on one compartment and a stimulus on the other", c3, 1))
         dt = Sym(z3.Real("dt"))
         T = 3 if tier == "quick" else 4
 
